@@ -15,11 +15,10 @@ pub struct Case {
 pub struct Calib {
     pub error_severs: [bool; 64],
     pub short_read_severs: bool,
-    pub from_probe: bool,
 }
 impl Calib {
     pub fn documented() -> Calib {
-        Calib { error_severs: [true; 64], short_read_severs: true, from_probe: false }
+        Calib { error_severs: [true; 64], short_read_severs: true }
     }
     fn severs(&self, s: &Slot, res: i64) -> bool {
         if res < 0 {
@@ -77,7 +76,7 @@ extern "C" fn on_alarm(_: libc::c_int) {
 pub fn install_watchdog() {
     unsafe {
         let mut sa: libc::sigaction = std::mem::zeroed();
-        sa.sa_sigaction = on_alarm as usize;
+        sa.sa_sigaction = on_alarm as *const () as usize;
         libc::sigemptyset(&mut sa.sa_mask);
         libc::sigaction(libc::SIGALRM, &sa, std::ptr::null_mut());
     }
@@ -191,9 +190,25 @@ pub fn run_case(sh: &mut Shard, rs: &mut RingState, case: &Case, cal: &Calib, r:
         }
         if !ctor_panic && got.problem.is_none() {
             let missing: Vec<usize> = (0..n).filter(|&p| res_u[p].is_none()).collect();
+            // pair every unanswered entry with a completion nobody was stamped with: first by equal low halves
+            // (a truncated user_data), then in order of arrival
+            let mut pool: Vec<Option<(u64, i32)>> = strangers.iter().map(|x| Some(*x)).collect();
+            let mut paired: Vec<Option<(u64, i32)>> = vec![None; missing.len()];
+            for (k, &p) in missing.iter().enumerate() {
+                if let Some(j) = pool.iter().position(|x| x.map(|x| x.0 as u32 == uds[p] as u32).unwrap_or(false)) {
+                    paired[k] = pool[j].take();
+                }
+            }
+            for k in 0..missing.len() {
+                if paired[k].is_none() {
+                    if let Some(j) = pool.iter().position(|x| x.is_some()) {
+                        paired[k] = pool[j].take();
+                    }
+                }
+            }
             for (k, &p) in missing.iter().enumerate() {
                 let op = su[p].op().name();
-                if let Some(&(ud, res)) = strangers.get(k) {
+                if let Some((ud, res)) = paired[k] {
                     viol(
                         r,
                         format!("C18:{op}:user-data-differs"),
@@ -216,6 +231,9 @@ pub fn run_case(sh: &mut Shard, rs: &mut RingState, case: &Case, cal: &Calib, r:
         if verbose {
             println!("  round {round}: waited {} ns, completions in arrival order {:x?}", got.wait_ns, got.cqes);
         }
+        if got.sq_full_waits > 0 {
+            r.outcome("submit:sqpoll-queue-looked-full(waited)");
+        }
         if got.partial {
             r.outcome("submit:taken-in-several-calls(prep-rejection)");
         }
@@ -225,15 +243,16 @@ pub fn run_case(sh: &mut Shard, rs: &mut RingState, case: &Case, cal: &Calib, r:
         // is not one either, or the member reports an error of its own where the reference has it cancelled —
         // the kernel rejected it while preparing it, which fails the whole chain) is the root cause;
         // the cancellations it provokes in the other members are its consequences and are not reported separately
-        let root: Vec<usize> = (0..n)
-            .filter(|&p| {
+        let differs = |p: usize| match res_u[p] {
+            Some(g) => {
                 let (op, w) = (su[p].op(), want[p]);
-                match res_u[p] {
-                    Some(g) => !(if op.returns_fd() && w >= 0 { g >= 0 } else { g == w }) && g != canc && (w != canc || g < 0),
-                    None => false,
-                }
-            })
-            .collect();
+                !(if op.returns_fd() && w >= 0 { g >= 0 } else { g == w })
+            }
+            None => false,
+        };
+        let strong: Vec<usize> = (0..n).filter(|&p| differs(p) && res_u[p] != Some(canc) && want[p] != canc).collect();
+        let weak: Vec<usize> = (0..n).filter(|&p| differs(p) && want[p] == canc && res_u[p].map(|g| g < 0 && g != canc).unwrap_or(false)).collect();
+        let root: Vec<usize> = if !strong.is_empty() { strong } else { weak.into_iter().take(1).collect() };
         let consequence = |p: usize| case.linked && !root.is_empty() && !root.contains(&p);
         for p in 0..n {
             let op = su[p].op();
@@ -281,8 +300,13 @@ pub fn run_case(sh: &mut Shard, rs: &mut RingState, case: &Case, cal: &Calib, r:
         if r.samples.len() < 2 && n >= 2 && round == 0 {
             r.sample(json!({"case": case_json(case, prior0, first_op, 0, None), "wrapper_results": res_u, "direct_results": want}));
         }
-        for s in su {
-            s.cleanup();
+        if resync {
+            // completions are unaccounted for: the kernel may still write into these buffers — leak them
+            std::mem::forget(su);
+        } else {
+            for s in su {
+                s.cleanup();
+            }
         }
         for s in sr {
             s.cleanup();
@@ -290,7 +314,7 @@ pub fn run_case(sh: &mut Shard, rs: &mut RingState, case: &Case, cal: &Calib, r:
 
         // --- twin trees
         let (tu, tr) = (wu.tree(), wr.tree());
-        if tu != tr && !(case.linked && !root.is_empty()) {
+        if tu != tr && !(case.linked && !root.is_empty()) && got.problem.is_none() && !ctor_panic {
             let diff: Vec<&String> = tu.iter().filter(|l| !tr.contains(l)).chain(tr.iter().filter(|l| !tu.contains(l))).collect();
             let pos = diff.first().and_then(|l| pos_of_tree_line(l)).filter(|&p| p < n);
             let opn = pos.map(|p| SYMS[case.batch[p]].op.name()).unwrap_or("batch");
